@@ -29,8 +29,8 @@ LEVEL_NOTE = ("PARTIAL for floats: CPython's struct (binary64 -> binary16/32 rou
               "round-to-nearest-even on exact dyadics is tied to them by the differential run only (plus an exact-Fraction oracle). Trusted: Lean kernel (+propext, Classical.choice, "
               "Quot.sound); bitarray int2ba/ba2int/hex2ba/ba2hex/base2ba/tobytes/frombytes modelled by their documented list meaning; dtype table transcribed by hand and "
               "compared with the live register on every run (table lines); transcription of the Python tied by the differential run only. "
-              "Known deviation (owned by C15): keyword / name-with-length creation does not check the resulting length for hex/oct/bin/bits/bytes - transcribed in the model, "
-              "outside Valid, listed in known_findings.d/C02.json.")
+              "Former deviation (keyword / name-with-length creation did not compare the result with the requested length for hex/oct/bin/bits/bytes<n>) "
+              "was fixed in /repo by b88b583; its witness runs on every check (known_findings.d/C02.json, status fixed).")
 TECHNIQUE = "Lean 4 proof (bit-list arithmetic, byte-group induction, exact-dyadic IEEE rounding) + exhaustive small-domain and boundary correspondence over all routes and classes"
 
 BO = sys.byteorder
@@ -176,6 +176,9 @@ def expand(out: str):
 
 
 ROUTES = ("kw", "nameLen", "prop", "propLen", "token", "build", "pack")
+# Mutable classes first: a store shared with a cache is only handed to a mutable object as long as no Bits() has flagged
+# it immutable, so this is the order in which an aliasing defect shows.
+ORDER = ("BitArray", "BitStream", "ConstBitStream", "Bits")
 READERS = ("prop", "propLen", "parse", "unpack", "read")
 
 
@@ -241,12 +244,12 @@ def _exec_enc(f):
         if ln is None:
             return keep(CLASSES[cls](**{name: vv()}))
         return keep(CLASSES[cls](**{name: vv()}, length=bitlen if fam == "bytes" else ln))
-    res["kw"] = merge([tok(lambda c=c: kw(c), fmt) for c in CLASS_NAMES])
+    res["kw"] = merge([tok(lambda c=c: kw(c), fmt) for c in ORDER])
     # -- keyword with the length in the name
     if ln is None:
         res["nameLen"] = "~"
     else:
-        res["nameLen"] = merge([tok(lambda c=c: keep(CLASSES[c](**{f"{name}{ln}": vv()})), fmt) for c in CLASS_NAMES])
+        res["nameLen"] = merge([tok(lambda c=c: keep(CLASSES[c](**{f"{name}{ln}": vv()})), fmt) for c in ORDER])
     # -- property assignment on a mutable object that already has the dtype's bit length
     def prop(cls, attr, cur):
         a = CLASSES[cls](cur) if cur else CLASSES[cls]()
@@ -268,7 +271,7 @@ def _exec_enc(f):
             spell = [f"{name}={tv}", f" {name} = {tv}"]
         else:
             spell = [f"{name}:{ln}={tv}", f"{name}{ln}={tv}"]
-        ts = [tok(lambda c=c, s=s: keep(CLASSES[c](s)), fmt) for c in CLASS_NAMES for s in spell]
+        ts = [tok(lambda c=c, s=s: keep(CLASSES[c](s)), fmt) for s in spell for c in ORDER]
         ts.append(tok(lambda: keep(bitstring.pack(spell[0])), fmt))
         ts.append(tok(lambda: keep(BitArray.fromstring(spell[0])), fmt))
         res["token"] = merge(ts)
@@ -687,20 +690,7 @@ def oracle(line: str, out: str, extra: dict):
     return "unknown op"
 
 
-# ------------------------------------------------------------------------------------------------ regions (known findings)
-def kw_length_ignored(line: str) -> bool:
-    """enc lines where a length is requested for hex/oct/bin/bits/bytes and the value's own length differs."""
-    f = line.split(SEP)
-    if len(f) < 6 or f[1] != "enc" or f[4] == "None":
-        return False
-    fam = NAMES.get(f[3])
-    if fam not in ("hex", "oct", "bin", "bits", "bytes"):
-        return False
-    ref = ref_encode(fam, int(f[4]), f[5])
-    return ref[0] == "invalid" and ref[1] is not None
-
-
-REGIONS = {"kw_length_ignored": kw_length_ignored}
+REGIONS = {}
 
 
 def nontrivial(line: str) -> bool:
